@@ -848,7 +848,7 @@ func main() {
 
 	nDocs, coqBudget, leafCap := 35, 1500, 36
 	if args.Tier == "thorough" {
-		nDocs, coqBudget, leafCap = 700, 30000, 400
+		nDocs, coqBudget, leafCap = 250, 12000, 120
 	}
 
 	g := &gen{rng: rng.Fork(1), w: w}
